@@ -834,7 +834,11 @@ spifconf_open_file(spif_charptr_t name)
      * whole file, so we don't do that here. */
     fp = fopen((char *) name, "rt");
     REQUIRE_RVAL(fp != NULL, NULL);
-    fgets((char *) buff, 256, fp);
+    if (!fgets((char *) buff, 256, fp)) {
+        libast_print_warning("%s exists but is empty or cannot be read\n", name);
+        fclose(fp);
+        return NULL;
+    }
     ver_str = spif_str_new_from_ptr(buff);
 
     /* Check for magic string. */
